@@ -7,6 +7,7 @@ DESIGN.md section 3, C15-D1..D4.  Not decided: the resolved filesystem path (sym
 already on disk), Windows reserved names, host OS different from the configured os_type.
 """
 import ast
+import re
 import string
 
 from ..index import dotted, walk_no_nested, norm_text, AnalysisError
@@ -839,6 +840,39 @@ def _post_base(e):
             if base is not None and txt(base) != txt(arg.value):
                 return None
             base = arg.value
+        return base if hexed else None
+    # the same re-assembly spelled with + and %: slices of the name, separator-free constants and '%02X' % ord(name[k])
+    if isinstance(e, ast.BinOp) and isinstance(e.op, ast.Add):
+        parts, todo = [], [e]
+        while todo:
+            x = todo.pop()
+            if isinstance(x, ast.BinOp) and isinstance(x.op, ast.Add):
+                todo.extend([x.right, x.left])
+            else:
+                parts.append(x)
+        base = None
+        hexed = False
+        for x in parts:
+            if isinstance(x, ast.Constant) and isinstance(x.value, str):
+                if _has_sep(x.value) or '.' in x.value:
+                    return None
+                continue
+            if isinstance(x, ast.BinOp) and isinstance(x.op, ast.Mod) and isinstance(x.left, ast.Constant) and isinstance(x.left.value, str):
+                fmt = x.left.value.replace('%%', '')
+                if _has_sep(fmt) or '.' in fmt or not re.fullmatch(r'[^%]*%0?\d*[Xxd][^%]*', fmt):
+                    return None
+                arg = x.right
+                if isinstance(arg, ast.Tuple) and len(arg.elts) == 1:
+                    arg = arg.elts[0]
+                if not (isinstance(arg, ast.Call) and dotted(arg.func) == 'ord' and len(arg.args) == 1 and isinstance(arg.args[0], ast.Subscript)):
+                    return None
+                x = arg.args[0]
+                hexed = True
+            if not isinstance(x, ast.Subscript):
+                return None
+            if base is not None and txt(base) != txt(x.value):
+                return None
+            base = x.value
         return base if hexed else None
     return None
 
